@@ -372,9 +372,12 @@ def make_file(log, content):
     return Stub("file", {"read": f_read, "write": f_write, "__enter__": f_enter, "__exit__": f_exit})
 
 
+TAIL = [2]     # number of symbolic characters after the fixed entry (3 at the thorough tier)
+
+
 def sym_doc(eng, extra=""):
     k = eng.sym_str("k", 1, "ab")
-    tail = eng.sym_str("t", 2, SIGMA_S + extra)
+    tail = eng.sym_str("t", TAIL[0], SIGMA_S + extra)
     if extra:
         # file content: one more symbolic character INSIDE a value (line ends / form feeds there belong to the value)
         inner = eng.sym_str("i", 1, "x \n" + extra)
@@ -687,7 +690,7 @@ def task_filelog(enc, target_kind, sv=None):
 
 def main():
     chk = Check("C20", __doc__)
-    chk.bounds = {"document": "'@a{K, t = {v}, u = w}' + newline + 2 symbolic characters over the splitter alphabet; K symbolic over {a,b}; and documents that are just 2 symbolic characters (possibly blank) with content-generating probes",
+    chk.bounds = {"document": "'@a{K, t = {v}, u = w}' + newline + 2 | 3 symbolic characters over the splitter alphabet; K symbolic over {a,b}; and documents that are just 2 symbolic characters (possibly blank) with content-generating probes",
                   "shipped middlewares": "ResolveStringReferences / RemoveEnclosing (the default parse stack's classes, one or both) and NormalizeFieldKeys appended or as the stack; AddEnclosing prepended once / twice or in the stack", "stacks": "parse_stack / unparse_stack in {None, [], 1, 2, 3 probes}, append / prepend in {None, [], 1, 2 probes}, block and library probes mixed, passed as list / tuple / one-shot iterator",
                   "splice results": sorted(SPLICE), "splice at transform_block level": "document with String, Preamble, ExplicitComment, ImplicitComment, Entry, duplicate-key (failed) block + 2 symbolic characters; target block type symbolic over S/P/X/I/E/F, result kind symbolic over None, [], block, [a,b], (b,a), [a,a], 5, [a,7], same", "file layer": "open() stub; encodings utf-8/latin-1/gbk/utf-16 passed through; path and file-object targets; the file wrappers with default stacks and with one-shot iterator / empty parse_stack, append_middleware (write_file: its parse_stack / append_middleware arguments) against the string entry points given the same stacks as lists"}
     chk.assumptions = ["real codecs / the OS are outside the claim: open() is a stub that records its arguments; only the pass-through of path/encoding and the equality with parse_string(content) / write_string(...) are claimed",
@@ -695,6 +698,7 @@ def main():
     chk.stubs = ["builtins.open -> recording stub file"]
     chk.expected_vacuity = ["both-given-rejected", "probes-applied", "entry-spliced", "failed-block-spliced", "file-parsed", "file-log-checked", "repeated-calls"]
     deep = chk.tier == "thorough"
+    TAIL[0] = 3 if deep else 2
     stacks = [None, [], ["b1"], ["b1", "l2"], ["l2", "b1"]] + ([["b1", "b2", "l3"], ["l3", "b2", "b1"]] if deep else [["b1", "l2", "b3"]])
     extras = [None, [], ["b8"], ["b8", "l9"], ["l9", "b8"]]
     for which in ("parse", "write"):
